@@ -91,3 +91,12 @@ Theorem C02_structured_text_is_canonical :
     text_of (rebuilt en props pc p) ind = pp_p en props ind p.
 Proof. exact nest_text. Qed.
 Print Assumptions C02_structured_text_is_canonical.
+
+(* ... and with counting loops: "repeat with v = a to b" / "repeat with v = a down to b" (SpecFor.final is what
+   C03_counting_loops_rebuilt_unbounded gives from the bytes). *)
+From DRX Require Import Spec.SpecFor Proofs.LingoNestForText.
+Theorem C02_structured_text_with_counting_loops :
+  forall en props q, text_ok_q en props q -> forall pc ind,
+    text_of (final en props pc q) ind = pp_q en props ind q.
+Proof. exact for_text. Qed.
+Print Assumptions C02_structured_text_with_counting_loops.
